@@ -1,3 +1,4 @@
 pub mod gdsreal;
 pub mod geom;
+pub mod order;
 pub mod gdsstream;
